@@ -69,8 +69,14 @@ void iobuffer::export_buffer(FILE *fout, bool ispadding)
   WV_EVENT(WV_EXPORT_BEGIN, isfinal, this, now);
   if (isfinal)
   {
-    u8_t padding = ispadding ? 0 : b[now - 1][15];
-    fwrite(b, 1, (now << 4) - padding, fout);
+    u32_t size = now << 4;
+    if (!ispadding && now > 0)
+    {
+      // a damaged padding byte must not make the length wrap around: drop the damaged block
+      u8_t padding = b[now - 1][15];
+      size -= (padding >= 1 && padding <= 16) ? padding : 16;
+    }
+    fwrite(b, 1, size, fout);
   }
   else
     fwrite(b, 1, sum, fout);
